@@ -102,6 +102,12 @@ def cases(ctx):
         for pname, prog in P:
             for w in progs.words(sigma, n - 1):
                 yield (w, pname, prog, 'futures', 0.001, lev, fast, emb)
+    # micro-priced and very expensive symbols: notional (and hence every fee) orders of magnitude away from the usual
+    for sc in core.SCALES:
+        for fast in (False, True):
+            for pname, prog in [p for p in programs(sc[1], sc[2], 'futures') if p[0] != 'flip-at-2']:
+                for w in progs.words(sigma, n - 1):
+                    yield (w, pname, prog, 'futures', 0.001, 3, fast, sc)
     # two symbols on one wallet: events are per symbol, the wallet identity spans both
     P = [p for p in programs(emb[1], emb[2], 'futures') if p[0] != 'flip-at-2']
     for fast in (False, True):
